@@ -30,7 +30,7 @@ def scan(state, groups, tid):
     k = j - 1
     solver = G.build("Sedov", kw)
     F = M.Evaluator(solver)
-    stats = {"points": 0, "jumps": 0, "pattern": getattr(solver, "solution_type", None)}
+    stats = {"points": 0, "jumps": 0, "pattern": getattr(solver, "solution_type", None), "uclass": getattr(solver, "special_singularity", "")}
     # reported shock radius at t and t -/+ dt (an attribute written by the call)
     def reported(tt):
         F(np.array([1.0]), tt)
